@@ -166,7 +166,8 @@ class Ctx:
         ar = os.path.join(d, "lib%s.a" % name)
         _sh(["ar", "rcs", ar] + objs)
         self._libs[key] = {"static": ar, "objs": objs, "name": name, "cc": cc, "flags": list(flags), "dir": d}
-        self.builds.append("%s: %s %s" % (name, cc, " ".join(f for f in flags if f)))
+        self.builds.append("%s: %s %s%s" % (name, cc, " ".join(f for f in flags if f),
+                                          (" [config.h: %s]" % " ".join(l.split()[1] for l in open(os.path.join(cfg, "config.h")) if l.startswith("#define"))) if cfg else ""))
         return self._libs[key]
 
     def model_obj(self, cc="gcc", flags=()):
